@@ -78,6 +78,7 @@ def c10Leaf (j : Json) : Except String (Leaf F64) := do
   | "str" => pure (.str (← c10Cmp (← getStr j "op")) (← getStr c "v"))
   | "none" => pure .nul
   | "cls" => pure (.cls (← getStr c "path"))
+  | "any" => pure .any
   | s => throw s!"bad const kind {s}"
 
 partial def c10Pred (j : Json) : Except String (Pred F64) := do
@@ -174,8 +175,10 @@ def handleC10 (j : Json) : Except String Json := do
     | none => db
   -- the junctions with their conditions held in a set, and the SQL text printed from them
   let key := sqlStr c10Show
-  let qS := pred.map (compileSTop cfg Q.same key)
-  let qT := pred.map (compileSTop cfg (fun a b => key a == key b) key)
+  -- bare-path predicates (`agg.model.g`) in junctions: repaired (not merged) or as the pinned commit (observed)
+  let bare := (getBool cfgJ "bareNotMerged").toOption.getD true
+  let qS := pred.map (compileSTop cfg bare Q.same key)
+  let qT := pred.map (compileSTop cfg bare (fun a b => key a == key b) key)
   let selS := match qS with
     | some q => queryFits c10Ops q db
     | none => db
@@ -189,7 +192,7 @@ def handleC10 (j : Json) : Except String Json := do
       | some a, some b => a.same b
       | _, _ => true)),
     ("fuel_ok_set", Json.bool (match pred with
-      | some p => (compileSTop cfg Q.same key p).same (compileS cfg Q.same key (p.depth + 9) p)
+      | some p => (compileSTop cfg bare Q.same key p).same (compileS cfg bare Q.same key (p.depth + 9) p)
       | none => true)),
     ("rows_match", c10Ids rowsSel),
     ("stored", Json.arr (sdb.map (fun sf => Json.bool (stored rows sf))).toArray),
